@@ -1,8 +1,103 @@
 import Driver.Proto
-/-! driver handlers for property C07 (ops `model.*`, `spec.*`, `trig.*`) -/
-namespace Verif.Driver.C07
-open Verif Verif.Driver
+import Verif.Model.Json
+/-! driver handlers for property C07 (ops `model.c07.*`, `spec.c07.*`, `trig.c07.*`)
 
-def handlers : List (String × Handler) := []
+The number shortener `minify.Number` is **not** modelled here: the harness sends, for every number
+lexeme of the text, the result of the real `minify.Number(lexeme, precision)`; `num` is the lookup in
+that table.  So the JSON model is tied independently of the `Number` model (C08). -/
+namespace Verif.Driver.C07
+open Verif Verif.Driver Verif.Spec.Json Verif.Model.Json
+
+/-- `num` from the alternating list lexeme₁, result₁, lexeme₂, result₂, … -/
+def numTable : List Bytes → List (List Char × List Char)
+  | a :: b :: r => (bytesToChars a, bytesToChars b) :: numTable r
+  | _ => []
+
+def numOf (tbl : List (List Char × List Char)) : List Char → Int → List Char :=
+  fun s _ => match tbl.lookup s with
+    | some r => r
+    | none => "!no-number-result!".toList
+
+def evReply (e : Ev) : Bytes :=
+  (48 + e.1.code).toUInt8 :: (48 + e.2.1.code).toUInt8 :: charsToBytes e.2.2
+
+/-- `model.c07.events text` → one item per event: state digit, grammar digit, text -/
+def opEvents : Handler := fun args => do
+  let t ← argChars args 0
+  match parseJ t with
+  | none => .error "invalid"
+  | some v => .ok (listReply ((events .value v).map evReply))
+
+/-- `model.c07.minify text keepNumbers precision table` → output bytes -/
+def opMinify : Handler := fun args => do
+  let t ← argChars args 0
+  let keep ← argBool args 1
+  let prec ← argInt args 2
+  let tbl ← argList args 3
+  match minifyText { precision := prec, keepNumbers := keep } (numOf (numTable tbl)) t with
+  | none => .error "invalid"
+  | some out => .ok (charsToBytes out)
+
+/-- the exponent of a number lexeme is small enough for `numVal` to be evaluated (at most 4 significant
+    exponent digits); other lexemes are compared by the harness' exact decimal oracle only -/
+def expSmall (s : List Char) : Bool :=
+  match s.dropWhile (fun c => !isE c) with
+  | [] => true
+  | _ :: t => ((expBody t).dropWhile (· == '0')).length ≤ 4
+
+/-- `spec.c07.holds input output keepNumbers mode` — the property itself, evaluated with the
+    specification side only (`parseJ`, `jvEq`, lengths) on the implementation's output.
+    mode 0: numbers compared by value (`jvEq`); mode 1: shape only (`jvShapeEq`; precision > 0 or
+    exponents too large to evaluate).  Reply: `ok`, or the first failing clause. -/
+def opHolds : Handler := fun args => do
+  let i ← argChars args 0
+  let o ← argChars args 1
+  let keep ← argBool args 2
+  let mode ← argNat args 3
+  match parseJ i with
+  | none => .ok (strBytes "invalid-input")
+  | some v =>
+    match parseJ o with
+    | none => .ok (strBytes "invalid-output")
+    | some v' =>
+      let big := countNum (fun s => !expSmall s) v + countNum (fun s => !expSmall s) v' > 0
+      if !(if mode == 0 && !big then jvEq v v' else jvShapeEq v v') then .ok (strBytes "value")
+      else if keep && compact v != compact v' then .ok (strBytes "keepnumbers")
+      else if o.length ≤ i.length then .ok (strBytes "ok")
+      else .ok (strBytes "length")
+
+/-- `spec.c07.numHyp lexeme numberResult precision` — the hypotheses of the theorems on `num`
+    (`NumGrammar`, `NumDotShrinks`, `NumValue`) evaluated on one result of the real `minify.Number`.
+    Reply `ok` or the name of the first hypothesis that fails. -/
+def opNumHyp : Handler := fun args => do
+  let s ← argChars args 0
+  let r ← argChars args 1
+  let p ← argInt args 2
+  if !isJsonNumber s then .ok (strBytes "not-a-json-number")
+  else if !isMinNumber r then .ok (strBytes "NumGrammar(grammar)")
+  else if r.length > s.length then .ok (strBytes "NumGrammar(length)")
+  else if !hasExp s && startsDot r && r.length ≥ s.length then .ok (strBytes "NumDotShrinks")
+  else if p ≤ 0 && expSmall s && expSmall r && numVal r != numVal s then .ok (strBytes "NumValue")
+  else .ok (strBytes "ok")
+
+/-- `spec.c07.isNumber lexeme` / `spec.c07.isString lexeme` -/
+def opIsNumber : Handler := fun args => do
+  let s ← argChars args 0
+  .ok (boolBytes (isJsonNumber s))
+def opIsString : Handler := fun args => do
+  let s ← argChars args 0
+  .ok (boolBytes (isJsonString s))
+
+/-- `spec.c07.compact text` → `compact (parseJ text)` (whitespace removal only) -/
+def opCompact : Handler := fun args => do
+  let t ← argChars args 0
+  match parseJ t with
+  | none => .error "invalid"
+  | some v => .ok (charsToBytes (compact v))
+
+def handlers : List (String × Handler) :=
+  [("model.c07.events", opEvents), ("model.c07.minify", opMinify), ("spec.c07.holds", opHolds),
+   ("spec.c07.numHyp", opNumHyp), ("spec.c07.isNumber", opIsNumber), ("spec.c07.isString", opIsString),
+   ("spec.c07.compact", opCompact)]
 
 end Verif.Driver.C07
